@@ -170,6 +170,9 @@ func (t *Teamserver) ListenerRemove(Name string) ([]*Listener, []packager.Packag
 
 			// drop every retained Add event of this listener (the operator's request and the
 			// listener's own announcement), walking backwards so that removal keeps the indices valid
+			t.EventsMtx.Lock()
+			defer t.EventsMtx.Unlock()
+
 			for EventID := len(t.EventsList) - 1; EventID >= 0; EventID-- {
 				if t.EventsList[EventID].Head.Event == packager.Type.Listener.Type {
 					if t.EventsList[EventID].Body.SubEvent == packager.Type.Listener.Add {
